@@ -98,7 +98,7 @@ def run_deductive(spec, res, tier):
                 res.errors.append(f'contract out of date: {e}')
             except Exception:
                 res.errors.append(f'engine crash on {q}: {traceback.format_exc()[-1500:]}')
-        if (eng.lemmas or eng.inductive) and targets is None:
+        if (eng.lemmas or eng.inductive) and (targets is None or 'LEMMAS' in targets):
             try:
                 obls += eng.generate_lemmas(modname, eng.lemmas)
             except OutOfSubset as e:
